@@ -708,6 +708,52 @@ fn build_seeds(dir: &str, tier: Tier) -> Vec<Seed> {
         filename: "doc.store.stam.json".into(),
     });
     seeds.push(Seed { name: "include:dangling".into(), loader: Loader::StoreJson, doc: inc("a", "missing.store.stam.json"), aux: vec![], filename: "doc.store.stam.json".into() });
+    // a root document and a sub-store that both carry an inline copy of the same dataset / resource, edited independently:
+    // every way the sub-store's copy can differ x whether the root reads its own copy before or after the include
+    let dataset = |keys: &[&str], data: &[(&str, &str, &str)]| -> String {
+        let ks: Vec<String> = keys.iter().map(|k| format!("{{\"@type\":\"DataKey\",\"@id\":\"{}\"}}", k)).collect();
+        let ds: Vec<String> = data.iter().map(|(id, k, v)| format!("{{\"@type\":\"AnnotationData\",\"@id\":\"{}\",\"key\":\"{}\",\"value\":{{\"@type\":\"String\",\"value\":\"{}\"}}}}", id, k, v)).collect();
+        format!("{{\"@type\":\"AnnotationDataSet\",\"@id\":\"S\",\"keys\":[{}],\"data\":[{}]}}", ks.join(","), ds.join(","))
+    };
+    let ann = |id: &str, b: usize, e: usize, data: &str| -> String {
+        format!(
+            "{{\"@type\":\"Annotation\",\"@id\":\"{}\",\"target\":{{\"@type\":\"TextSelector\",\"resource\":\"r\",\"offset\":{{\"@type\":\"Offset\",\"begin\":{{\"@type\":\"BeginAlignedCursor\",\"value\":{}}},\"end\":{{\"@type\":\"BeginAlignedCursor\",\"value\":{}}}}}}},\"data\":[{{\"@type\":\"AnnotationData\",\"@id\":\"{}\",\"set\":\"S\"}}]}}",
+            id, b, e, data
+        )
+    };
+    let resource = |text: &str| format!("{{\"@type\":\"TextResource\",\"@id\":\"r\",\"text\":\"{}\"}}", text);
+    let root_set = dataset(&["k0", "k1"], &[("D0", "k0", "v"), ("D1", "k1", "w")]);
+    let sub_sets: Vec<(&str, String)> = vec![
+        ("same", root_set.clone()),
+        ("key-appended", dataset(&["k0", "k1", "k2"], &[("D0", "k0", "v"), ("D1", "k1", "w"), ("D2", "k2", "x")])),
+        ("key-replaced", dataset(&["k0", "k2"], &[("D0", "k0", "v"), ("D2", "k2", "x")])),
+        ("key-dropped", dataset(&["k1"], &[("D1", "k1", "w")])),
+        ("keys-reordered", dataset(&["k1", "k0"], &[("D1", "k1", "w"), ("D0", "k0", "v")])),
+        ("new-key-first", dataset(&["k2", "k0", "k1"], &[("D2", "k2", "x"), ("D0", "k0", "v")])),
+        ("data-id-other-value", dataset(&["k0", "k1"], &[("D0", "k0", "OTHER"), ("D1", "k1", "w")])),
+        ("data-id-other-key", dataset(&["k0", "k1"], &[("D0", "k1", "v")])),
+    ];
+    for (variant, sub_set) in &sub_sets {
+        for (rname, sub_res) in [("res-absent", String::new()), ("res-same", resource("a\u{e9} \u{1d11e}d")), ("res-other-text", resource("other"))] {
+            for root_first in [true, false] {
+                let sub = format!("{{\"@type\":\"AnnotationStore\",\"@id\":\"sub\",\"resources\":[{}],\"annotationsets\":[{}],\"annotations\":[{}]}}", sub_res, sub_set, ann("A1", 3, 5, if sub_set.contains("\"D0\"") { "D0" } else { "D1" }));
+                let own = format!("\"resources\":[{}],\"annotationsets\":[{}]", resource("a\u{e9} \u{1d11e}d"), root_set);
+                let include = "\"@include\":\"sub.store.stam.json\"";
+                let root = if root_first {
+                    format!("{{\"@type\":\"AnnotationStore\",\"@id\":\"root\",{},{},\"annotations\":[{}]}}", own, include, ann("A0", 0, 3, "D0"))
+                } else {
+                    format!("{{\"@type\":\"AnnotationStore\",\"@id\":\"root\",{},{},\"annotations\":[{}]}}", include, own, ann("A0", 0, 3, "D0"))
+                };
+                seeds.push(Seed {
+                    name: format!("include:overlap:{}|{}|{}", variant, rname, if root_first { "root-copy-first" } else { "include-first" }),
+                    loader: Loader::StoreJson,
+                    doc: root.into_bytes(),
+                    aux: vec![("sub.store.stam.json".into(), sub.into_bytes())],
+                    filename: "doc.store.stam.json".into(),
+                });
+            }
+        }
+    }
     seeds
 }
 
@@ -810,6 +856,9 @@ fn cbor_mutations(content: &[u8]) -> Vec<(String, String, Vec<u8>)> {
 fn docs_for_seed(si: usize, seed: &Seed, two: bool) -> Vec<Doc> {
     let mut docs = vec![Doc { seed: si, op: "none".into(), class: "unchanged".into(), bytes: seed.doc.clone(), deviations: 0, second: None, parent: None }];
     if seed.name.starts_with("include:") {
+        if let Some(variant) = seed.name.strip_prefix("include:overlap:") {
+            docs[0].class = variant.to_string();
+        }
         return docs;
     }
     match seed.loader {
@@ -1103,7 +1152,7 @@ pub fn run(rep: &Reporter) -> Coverage {
     cov.traces_validated = cov.transitions;
     cov.extra.insert("two_deviation_failures_already_given_by_the_first_deviation_alone".into(), json!(explained.load(Ordering::Relaxed)));
     cov.distinct_nontrivial = counts.get("ok").copied().unwrap_or(0) + counts.get("inconsistent").copied().unwrap_or(0);
-    cov.rule = "seed documents are produced by the library itself from 4 histories (text, annotation selectors with gaps and temporary ids, metadata selectors, complex selectors) as STAM JSON store, annotation array (annotate_from_file), dataset file, STAM CSV files and CBOR; every single deviation is generated, and every pair of a structural first deviation (delete / duplicate / temporary-id retype / redirected reference) with a second one (delete / swap / temporary-id retype / redirect / null) on the smallest JSON seed (thorough: on every JSON seed): JSON on an order-preserving tree: delete / duplicate / swap-with-next of every node, every number := each integer in -8..8, retype of every node to each of 15 values (null, true, numbers incl. 2^63 and 1e308, empty string/array/object, temporary ids up to 2^64-1), @type renamed to each other type, every string redirected to every other id, every selector wrapped in a complex selector; CSV: every cell := each of 18 values (incl. three long strings of 2-, 3- and 4-byte characters shifted by one letter), row delete/duplicate, column drop; CBOR: every truncation, every single bit flip, every byte := 5 values; a two-deviation document that fails exactly like its first deviation alone is counted there, otherwise it is classed by its second deviation; each document is loaded by the real loader in a worker process (allocation cap 1 GiB live / 256 MiB per request, 5 s wall limit); verdict must be Err or a store that passes the C01-C03 consistency checks; plus all strings of length <= 3 over 14 symbols, nine long multi-byte strings (every byte offset below 40 inside a character in one of them) and two 100-character strings through Cursor/Type/DataFormat/SelectorKind/Offset parsers; non-trivial = documents that loaded".into();
+    cov.rule = "seed documents are produced by the library itself (plus hand-written store-level @include documents: cyclic, dangling, and 48 root + sub-store pairs that carry independently edited inline copies of one dataset / resource) from 4 histories (text, annotation selectors with gaps and temporary ids, metadata selectors, complex selectors) as STAM JSON store, annotation array (annotate_from_file), dataset file, STAM CSV files and CBOR; every single deviation is generated, and every pair of a structural first deviation (delete / duplicate / temporary-id retype / redirected reference) with a second one (delete / swap / temporary-id retype / redirect / null) on the smallest JSON seed (thorough: on every JSON seed): JSON on an order-preserving tree: delete / duplicate / swap-with-next of every node, every number := each integer in -8..8, retype of every node to each of 15 values (null, true, numbers incl. 2^63 and 1e308, empty string/array/object, temporary ids up to 2^64-1), @type renamed to each other type, every string redirected to every other id, every selector wrapped in a complex selector; CSV: every cell := each of 18 values (incl. three long strings of 2-, 3- and 4-byte characters shifted by one letter), row delete/duplicate, column drop; CBOR: every truncation, every single bit flip, every byte := 5 values; a two-deviation document that fails exactly like its first deviation alone is counted there, otherwise it is classed by its second deviation; each document is loaded by the real loader in a worker process (allocation cap 1 GiB live / 256 MiB per request, 5 s wall limit); verdict must be Err or a store that passes the C01-C03 consistency checks; plus all strings of length <= 3 over 14 symbols, nine long multi-byte strings (every byte offset below 40 inside a character in one of them) and two 100-character strings through Cursor/Type/DataFormat/SelectorKind/Offset parsers; non-trivial = documents that loaded".into();
     cov.samples = vec![
         json!({"seed": "json:text", "mutation": "retype:tempid-4e9", "path": ".annotations[].@id"}),
         json!({"seed": "cbor:text", "mutation": "bitflip3", "path": "tenth4"}),
